@@ -74,6 +74,7 @@ type world struct {
 	failKind  string   // how the pipeline fails in this reconcile ("" = not)
 	inCompose bool
 	gcd       []string
+	vanished  []string // resources the environment removed in the middle of this reconcile
 	start     map[string]any
 	quiet     bool
 	prevOK    bool   // previous reconcile: ok, fault free, no env step since it started
@@ -179,7 +180,7 @@ func (w *world) emit(ev string, m map[string]any) {
 	base := map[string]any{"ev": ev, "scenario": w.scenID, "mode": w.mode, "actor": "xr", "rec": w.recNo,
 		"verb": "", "kind": "", "target": "none", "abs": "", "outcome": "", "injected": "", "applied": false, "noop": false,
 		"pfail": w.pfail, "want": strs(w.wantRec), "result": "", "faulty": false, "steady": false, "prevDigest": w.prevDig,
-		"gcd": strs(w.gcd), "start": map[string]any{"refs": st["refs"], "objs": st["objs"]}, "post": w.post()}
+		"gcd": strs(w.gcd), "vanished": strs(w.vanished), "start": map[string]any{"refs": st["refs"], "objs": st["objs"]}, "post": w.post()}
 	for k, v := range m {
 		base[k] = v
 	}
@@ -337,6 +338,9 @@ func (w *world) env(e replay.Entry) {
 		})
 	case "remove":
 		w.s.Remove(cdKey(w.rev[e.O]))
+		if w.al != nil {
+			w.vanished = append(w.vanished, e.O)
+		}
 	case "markdeleted":
 		k := cdKey(w.rev[e.O])
 		w.s.Mutate(k, func(u *unstructured.Unstructured) { u.SetFinalizers(append(u.GetFinalizers(), "provider.example.org/external")) })
@@ -414,14 +418,19 @@ func (w *world) runFunction(ctx context.Context, name string, req *fnv1.RunFunct
 			w.emit("env", map[string]any{"verb": "pipeline-fails", "target": "none"})
 			rsp.Results = []*fnv1.Result{{Severity: fnv1.Severity_SEVERITY_FATAL, Message: "fatal"}}
 			return rsp, nil
-		case "reqloop":
+		case "reqloop", "reqlabel":
+			// requirements that never stabilise: a different object name each round, or (reqlabel) the same
+			// selector name / kind with different labels each round (added after the seeded change C03-m1 was missed)
 			w.reqRound++
 			if !w.pfail {
 				w.pfail = true
 				w.emit("env", map[string]any{"verb": "pipeline-fails", "target": "none"})
 			}
-			rsp.Requirements = &fnv1.Requirements{ExtraResources: map[string]*fnv1.ResourceSelector{
-				"r": {ApiVersion: "ex.org/v1", Kind: "Extra", Match: &fnv1.ResourceSelector_MatchName{MatchName: fmt.Sprintf("extra-%d", w.reqRound)}}}}
+			sel := &fnv1.ResourceSelector{ApiVersion: "ex.org/v1", Kind: "Extra", Match: &fnv1.ResourceSelector_MatchName{MatchName: fmt.Sprintf("extra-%d", w.reqRound)}}
+			if kind == "reqlabel" {
+				sel.Match = &fnv1.ResourceSelector_MatchLabels{MatchLabels: &fnv1.MatchLabels{Labels: map[string]string{"round": fmt.Sprintf("%d", w.reqRound)}}}
+			}
+			rsp.Requirements = &fnv1.Requirements{ExtraResources: map[string]*fnv1.ResourceSelector{"r": sel}}
 			return rsp, nil
 		}
 	}
@@ -536,6 +545,7 @@ func (w *world) reconcile(al *replay.Aligner, sw *sweep) int {
 	al.Window = 6
 	w.al = al
 	w.pfail, w.failKind, w.inCompose, w.gcd, w.fnCalls, w.reqRound = false, "", false, nil, 0, 0
+	w.vanished = nil
 	w.composed, w.composeErr = false, nil
 	w.quiet = true
 	w.wantRec = append([]string(nil), w.want...)
